@@ -38,7 +38,7 @@ NAMES = ['a', 'a_b', 'A', 'b10', 'b9', 'B', 'Da', 'D', 'Derivativf', 'E', 'C', '
 FREE = ['time', 't', 'T', 'tau', 'environment$time', 'Time']
 VANISH = ['zero', 'diff', 'cancel', 'pow0', 'zero2', 'zerodiv', 'pw', 'exp0', 'zeroexp', 'paren', 'qdiff2', 'qdiff3']
 XCANCEL = ['q3', 'q3', 'q4', 'abc', 'abcq', 'reord', 'powf', 'expf', 'sharedq']
-LIVE = ['lin', 'sq', 'exp', 'prod', 'div', 'pw', 'sub']
+LIVE = ['lin', 'sq', 'exp', 'prod', 'div', 'pw', 'sub', 'near6']
 SHAPES = ['chain', 'diamond', 'layered', 'wide', 'star', 'dag', 'dag', 'dense']
 
 
@@ -77,6 +77,9 @@ def live_term(rng, n, d, others):
         return ['div', D, ['add', ['q', 2.0], ['pow', o, 2]]]
     if form == 'pw':
         return ['pw', D, ['q', 1.25], o, ['mul', ['q', c], D]]
+    if form == 'near6':       # two different numbers that agree in their first six significant digits: the dependency
+        a, b = rng.choice([(96485.3415, 96485.3365), (8314.4724, 8314.472), (1.0000001, 1.0), (0.30000004, 0.3)])
+        return ['mul', ['sub', ['q', a], ['q', b]], D]                      # on D is small but real
     return ['sub', ['mul', ['q', c + 3.0], D], ['mul', ['q', c], D]]
 
 
